@@ -241,7 +241,7 @@ func (cc *CheckCtx) runLemma(l Lemma) {
 	if l.Quant {
 		head += "(set-option :auto_config false)\n(set-option :smt.mbqi false)\n"
 	}
-	script := head + prelude + l.Script + "(check-sat)\n(get-model)\n"
+	script := head + filterPrelude(prelude, l.Script) + l.Script + "(check-sat)\n(get-model)\n"
 	to := 20
 	if cc.Tier == "thorough" {
 		to = 120
@@ -443,4 +443,105 @@ func (cc *CheckCtx) finish(pd *PropDef, wall float64) int {
 		return 1
 	}
 	return 0
+}
+
+func parserTasks(matchParse string, extra bool) func(string) []Task {
+	return func(tier string) []Task {
+		var ts []Task
+		for _, p := range allPkgs {
+			ts = append(ts, Task{Pkg: p, Func: "ParseVector", Match: matchParse, Timeout: 60})
+			if !extra {
+				continue
+			}
+			switch p {
+			case "20":
+				ts = append(ts, Task{Pkg: p, Func: "split", Timeout: 60})
+			case "30", "31":
+				ts = append(ts, Task{Pkg: p, Func: "splitCouple", Timeout: 60})
+				ts = append(ts, Task{Pkg: p, Func: "(*kvm).Set", Timeout: 60})
+			}
+			ts = append(ts, Task{Pkg: p, Func: "(*" + typeOf(p) + ").Set", Match: `/post/(ok_iff_legal|wf_preserved|vals_array|error_value)$`})
+		}
+		return ts
+	}
+}
+
+func headerLemmas(w *World, tier string) []Lemma {
+	// the accepted prefixes of the four parsers are pairwise incompatible
+	pre := map[string]string{"20": "AV:", "30": "CVSS:3.0/", "31": "CVSS:3.1/", "40": "CVSS:4.0"}
+	var ls []Lemma
+	has := func(p string) string {
+		h := pre[p]
+		cs := []string{fmt.Sprintf("(>= (s.len v) %d)", len(h))}
+		for i := 0; i < len(h); i++ {
+			cs = append(cs, fmt.Sprintf("(= (select (s.arr v) (+ (s.off v) %d)) #x%02x)", i, h[i]))
+		}
+		return "(and " + strings.Join(cs, " ") + ")"
+	}
+	for i, a := range allPkgs {
+		for _, b := range allPkgs[i+1:] {
+			ls = append(ls, Lemma{Name: fmt.Sprintf("C13/lemma/prefixes_disjoint/%s_%s", a, b), Pkg: a,
+				Script: "(declare-const v Str)\n(assert " + has(a) + ")\n(assert " + has(b) + ")\n"})
+		}
+	}
+	// each package's accept_implies_prefix clause uses exactly these prefixes
+	for _, p := range []string{"30", "31", "40"} {
+		if w.Specs[p] != nil && w.Specs[p].Header != pre[p] {
+			ls = append(ls, Lemma{Name: "C13/lemma/spec_header_matches/" + p, Pkg: p, Script: "(assert true)\n"})
+		}
+	}
+	return ls
+}
+
+func init() {
+	props["C01"] = &PropDef{
+		ID:      "C01",
+		Tasks:   parserTasks(`/safety/|/loop\d|/lemma/|/call/|/pool/|/frame/|/post/(accept_iff_grammar|reject_nil)/|/post/accept_object/`, true),
+		Trusted: append(append([]string{}, trustedCommon...), "T5 assumed contracts of strings.HasPrefix, strings.Cut (cut at the first ':'), (*sync.Pool).Get/Put (a 14-slot []string with arbitrary contents, exclusively owned until Put)"),
+		Assumptions: []string{
+			"the grammar is given as a reference fold over the '/'-separated elements (parseResNN in /verif/spec/vNN.smt2): a recursive specification function instantiated through its defining equation (assume_def), not a declarative grammar; it decides the first defect from left to right",
+			"string lengths are below 2^62 (T4)",
+		},
+	}
+	props["C06"] = &PropDef{
+		ID: "C06",
+		Tasks: func(tier string) []Task {
+			ts := parserTasks(`/post/accept_object/|/loop\d|/lemma/`, false)(tier)
+			for _, p := range allPkgs {
+				ts = append(ts, Task{Pkg: p, Func: "(" + typeOf(p) + ").Get", Match: `/post/(known_metric_value|nonempty)$`})
+				ts = append(ts, Task{Pkg: p, Func: "(*" + typeOf(p) + ").Set", Match: `/post/(vals_array|sets_metric)$`})
+			}
+			return ts
+		},
+		Trusted: append(append([]string{}, trustedCommon...), "T5 assumed contracts of strings.HasPrefix, strings.Cut, sync.Pool"),
+		Assumptions: []string{"'the value written for m in s' is the p.vals component of the reference fold: the code of the value of the (unique) element whose abbreviation is m, 0 (X / ND) when absent"},
+	}
+	props["C13"] = &PropDef{
+		ID:      "C13",
+		Tasks:   parserTasks(`/post/accept_implies_prefix/|/loop\d|/lemma/`, false),
+		Lemmas:  headerLemmas,
+		Trusted: append(append([]string{}, trustedCommon...), "T5 assumed contract of strings.HasPrefix"),
+		Assumptions: []string{
+			"the Vector() side (the serialised string starts with the package's own header and is accepted by its own parser) is the C02 obligation set",
+		},
+	}
+	props["C18"] = &PropDef{
+		ID: "C18",
+		Tasks: func(tier string) []Task {
+			ts := parserTasks(`/post/spec_error[a-z_]*/|/loop\d|/lemma/`, false)(tier)
+			for _, p := range allPkgs {
+				ts = append(ts, Task{Pkg: p, Func: "(*" + typeOf(p) + ").Set", Match: `/post/(err_unknown_metric|err_illegal_value|error_value)$`})
+				ts = append(ts, Task{Pkg: p, Func: "(" + typeOf(p) + ").Get", Match: `/post/unknown_metric$`})
+				if p == "30" || p == "31" {
+					ts = append(ts, Task{Pkg: p, Func: "(*kvm).Set", Match: `/post/`})
+				}
+			}
+			return ts
+		},
+		Trusted: append(append([]string{}, trustedCommon...), "T5 assumed contracts of strings.HasPrefix, strings.Cut, sync.Pool"),
+		Assumptions: []string{
+			"error values are compared with the reference fold, which reports the FIRST defect from left to right; for vectors with several defects this is stronger than the property (which only speaks about single-defect vectors)",
+			"v4.0 'CVSS:4.0' followed by something other than '/' is specified as ErrInvalidMetricValue, as the code answers (region left open by the property)",
+		},
+	}
 }
